@@ -324,7 +324,7 @@ func blockOnListChangeWorker(
 	}
 
 	ws := blockFn()
-	defer ctx.dsc.ds.leaveListBlock(ws)
+	defer func() { ctx.dsc.ds.leaveListBlock(ws) }()
 
 	// with notification registered, try operation again immediately
 	output = op()
@@ -369,7 +369,16 @@ func blockOnListChangeWorker(
 		if output.data != nil {
 			return
 		}
-		// a different client obtained the list element before this client could, so try again
+
+		// a different client obtained the list element before this client could. The wake-up removed
+		// this client from the wait queues, so register again, and with the registration in place
+		// try once more before waiting (an element may have been pushed in between)
+		ctx.dsc.ds.leaveListBlock(ws)
+		ws = blockFn()
+		output = op()
+		if output.data != nil {
+			return
+		}
 	}
 }
 
